@@ -109,7 +109,12 @@ def strToBool (s : Str) : Bool :=
 
 /-! ### decimal output (`printf` with `%d %u %lld %llu`) -/
 
-def natDigits (n : Nat) : Str := (Nat.toDigits 10 n).map (fun c => c.toNat)
+/-- decimal digits, most significant first; `fuel > n` always suffices -/
+def natDigitsAux : Nat → Nat → Str → Str
+  | 0, _, acc => acc
+  | f + 1, n, acc => if n < 10 then (48 + n) :: acc else natDigitsAux f (n / 10) ((48 + n % 10) :: acc)
+
+def natDigits (n : Nat) : Str := natDigitsAux (n + 1) n []
 
 def intDec (i : Int) : Str := if i < 0 then 45 :: natDigits i.natAbs else natDigits i.natAbs
 
